@@ -93,6 +93,12 @@ fn writer(tier: &str) -> Vec<String> {
         v.push(format!("qflush:cap=16:sq=1:prog={}WF:P=3", prog));
         v.push(format!("qflush:cap=16:h=1:qcap=2:prog={}:P=3", prog));
     }
+    // handles of the queuing wrapper dropped while the buffered sink behind it holds metrics (three
+    // lines fit a datagram): dropping a clone is not a reason to write
+    for prog in ["EWXEWF", "EXEWXEF", "EEWXWEEEEWF", "XEEWF", "EWXWEWXWE"] {
+        v.push(format!("qflush:cap=32:prog={}:P=2", prog));
+        v.push(format!("qflush:cap=32:h=1:qcap=4:prog={}:P=2", prog));
+    }
     // unmerged tree: split on the first operation for parallelism
     let tree: Vec<(usize, usize)> = if thorough {
         vec![(0, 7), (1, 7), (2, 7), (3, 7), (4, 6), (5, 6), (6, 6), (8, 5)]
